@@ -166,6 +166,14 @@ Proof.
   split; [f_equal; repeat (f_equal; try lia) | lia].
 Qed.
 
+Lemma existsb_long_false (ps : list bytes) :
+  forallb (fun p => blen p <? 256) ps = true -> existsb (fun s => 255 <? blen s) ps = false.
+Proof.
+  induction ps as [|p ps IH]; [reflexivity|]. cbn [forallb existsb]. intros H.
+  apply andb_true_iff in H. destruct H as [Hp Hps]. rewrite (IH Hps).
+  destruct (255 <? blen p) eqn:E; [lia|reflexivity].
+Qed.
+
 Lemma read_layout e : wf_ext e = true ->
   if ext_absent e then ext_read e (ext_len e) = Ok [] /\ ext_len e = 0
   else ext_read e (ext_len e) = Ok (enc_u16 (ext_id e) ++ enc_u16lp (ext_body e))
@@ -176,6 +184,9 @@ Proof.
   try (split; reflexivity);
   try (layout_tac; fail).
   - (* SNI *) destruct (blen host =? 0) eqn:E0; [split; reflexivity|]. layout_tac.
+  - (* points *) rewrite N.ltb_irrefl. destruct (255 <? blen points) eqn:E; [lia|]. layout_tac.
+  - (* ALPS *) rewrite N.ltb_irrefl, (existsb_long_false _ Hf). layout_tac.
+  - (* ALPS new *) rewrite N.ltb_irrefl, (existsb_long_false _ Hf). layout_tac.
   - (* padding *) destruct willpad; cbn [negb]; [|split; reflexivity]. layout_tac.
   - (* compress cert *) apply andb_true_iff in Hf. destruct Hf as [_ Hf].
     rewrite N.ltb_irrefl. destruct (255 <? 2 * blen algs) eqn:E; [lia|]. layout_tac.
@@ -183,6 +194,8 @@ Proof.
   - (* PSK modes *) rewrite N.ltb_irrefl. destruct (255 <? blen modes) eqn:E; [lia|]. layout_tac.
   - (* versions *) apply andb_true_iff in Hf. destruct Hf as [_ Hf].
     rewrite N.ltb_irrefl. destruct (255 <? 2 * blen versions) eqn:E; [lia|]. layout_tac.
+  - (* renegotiation info *) rewrite N.ltb_irrefl. destruct (255 <? blen conn) eqn:E; [lia|]. layout_tac.
+  - (* token binding *) rewrite N.ltb_irrefl. destruct (255 <? blen params) eqn:E; [lia|]. layout_tac.
   - (* UtlsPSK *) rewrite !andb_true_iff in Hf. destruct Hf as [_ Hom].
     destruct (utls_psk_len has_session cached ids binders =? 0) eqn:E0.
     + destruct omit; cbn in Hom; [|discriminate]. cbn [negb]. split; [reflexivity|lia].
@@ -558,6 +571,30 @@ Lemma too_many_versions v n : 255 < 2 * blen v -> ext_len (ESupportedVersions v)
 Proof. intros H Hn. cbn [ext_read ext_len] in *. guard_tac; solve [reflexivity|lia]. Qed.
 Lemma too_many_pskmodes m n : 255 < blen m -> ext_len (EPSKKeyExchangeModes m) <= n ->
   ext_read (EPSKKeyExchangeModes m) n = Err E_MANY_PSKMODES.
+Proof. intros H Hn. cbn [ext_read ext_len] in *. guard_tac; solve [reflexivity|lia]. Qed.
+
+(* one byte prefixes that would wrap [fix C08-one-byte-prefix-overflow] *)
+Lemma too_many_points p n : 255 < blen p -> ext_len (ESupportedPoints p) <= n ->
+  ext_read (ESupportedPoints p) n = Err E_MANY_POINTS.
+Proof. intros H Hn. cbn [ext_read ext_len] in *. guard_tac; solve [reflexivity|lia]. Qed.
+Lemma existsb_long_true (ps : list bytes) : Exists (fun s => 255 < blen s) ps ->
+  existsb (fun s => 255 <? blen s) ps = true.
+Proof.
+  intros H. apply existsb_exists. apply Exists_exists in H. destruct H as (s & Hin & Hs).
+  exists s. split; [exact Hin|lia].
+Qed.
+Lemma alps_name_too_long ps n : Exists (fun s => 255 < blen s) ps -> ext_len (EApplicationSettings ps) <= n ->
+  ext_read (EApplicationSettings ps) n = Err E_ALPS_NAME_LONG
+  /\ ext_read (EApplicationSettingsNew ps) n = Err E_ALPS_NAME_LONG.
+Proof.
+  intros H Hn. cbn [ext_read ext_len] in *. rewrite (existsb_long_true _ H).
+  destruct (n <? 2 + 2 + 2 + protos_len ps) eqn:E; [lia|]. split; reflexivity.
+Qed.
+Lemma renegotiated_connection_too_long r c n : 255 < blen c -> ext_len (ERenegotiationInfo r c) <= n ->
+  ext_read (ERenegotiationInfo r c) n = Err E_RENEG_LONG.
+Proof. intros H Hn. cbn [ext_read ext_len] in *. guard_tac; solve [reflexivity|lia]. Qed.
+Lemma too_many_token_binding_params ma mi p n : 255 < blen p -> ext_len (EFakeTokenBinding ma mi p) <= n ->
+  ext_read (EFakeTokenBinding ma mi p) n = Err E_MANY_TB_PARAMS.
 Proof. intros H Hn. cbn [ext_read ext_len] in *. guard_tac; solve [reflexivity|lia]. Qed.
 
 (* Write never panics and Read panics only through TransportParameters.Marshal *)
